@@ -170,9 +170,9 @@ class _Builder:
             cb = self.closure_of_local(p["local"])
             if cb is not None and cb.path not in stack and depth < MAX_DEPTH:
                 clos.append((ai, a, cb))
-        if not clos:
-            return
         if self.model_combinator(nb, t, {ai: (a, cb) for ai, a, cb in clos}, depth, stack, file):
+            return
+        if not clos:
             return
         src, stk = nb.get("src"), nb.get("stack")
 
@@ -248,6 +248,10 @@ class _Builder:
         "unwrap_or_else": {"Some": (None, ("payload",)), "None": (1, ("ret",))},
         "or_else": {"Some": (None, ("recv",)), "None": (1, ("ret",))},
         "ok_or_else": {"Some": (None, ("rewrap", "Ok")), "None": (1, ("wrap", "Err"))},
+        "ok_or": {"Some": (None, ("rewrap", "Ok")), "None": (None, ("wraparg", "Err", 1))},
+        "unwrap_or": {"Some": (None, ("payload",)), "None": (None, ("arg", 1))},
+        "unwrap": {"Some": (None, ("payload",)), "None": (None, ("panic",))},
+        "expect": {"Some": (None, ("payload",)), "None": (None, ("panic",))},
     }
     RESULT_MODEL = {
         "map": {"Ok": (1, ("wrap", "Ok")), "Err": (None, ("rewrap", "Err"))},
@@ -257,6 +261,11 @@ class _Builder:
         "unwrap_or_else": {"Ok": (None, ("payload",)), "Err": (1, ("ret",))},
         "map_or": {"Ok": (2, ("ret",)), "Err": (None, ("arg", 1))},
         "map_or_else": {"Ok": (2, ("ret",)), "Err": (1, ("ret",))},
+        "ok": {"Ok": (None, ("rewrap", "Some")), "Err": (None, ("none",))},
+        "err": {"Ok": (None, ("none",)), "Err": (None, ("rewrap", "Some"))},
+        "unwrap_or": {"Ok": (None, ("payload",)), "Err": (None, ("arg", 1))},
+        "unwrap": {"Ok": (None, ("payload",)), "Err": (None, ("panic",))},
+        "expect": {"Ok": (None, ("payload",)), "Err": (None, ("panic",))},
     }
     BOOL_MODEL = {"then": {"true": (1, ("wrap", "Some")), "false": (None, ("none",))}}
 
@@ -313,6 +322,11 @@ class _Builder:
                     binds[2].pop("move", None)
                 entry, ret = self.run_closure(cb, a, binds, fin["id"], t.get("unwind"), depth, stack, line, file, mk)
             k = recipe[0]
+            if k == "panic":
+                # the call itself, which does not return on this arm
+                fin["term"] = dict(t, target=None)
+                arms[variant] = entry
+                continue
             if k == "ret":
                 rv = {"k": "use", "ops": [{"move": {"local": ret, "proj": []}, "ty": ""}]}
             elif k == "wrap":
@@ -326,6 +340,9 @@ class _Builder:
                 rv = {"k": "aggregate", "adt": "std::option::Option", "variant": "None", "ops": []}
             elif k == "arg":
                 rv = {"k": "use", "ops": [t["args"][recipe[1]]]}
+            elif k == "wraparg":
+                rv = {"k": "aggregate", "adt": "std::result::Result" if recipe[1] in ("Ok", "Err") else "std::option::Option", "variant": recipe[1],
+                      "ops": [t["args"][recipe[2]]]}
             else:
                 rv = {"k": "use", "ops": [t["args"][0]]}
             fin["stmts"].append({"dst": t["dst"], "rv": rv, "line": line, "file": file})
@@ -484,7 +501,18 @@ class _Builder:
                     continue
                 plans[blk["id"]] = {"kind": "next", "base": base, "adapters": ads}
                 claimed |= {a[3]["id"] for a in ads}
-        # an adapter call feeding two plans (or something else as well) cannot be absorbed
+        # closure adaptors whose result is consumed by something we cannot see into (rayon's consume_iter, collect, extend, a
+        # caller): the closure may run once per element of the underlying iterator, possibly not for all of them
+        for blk in mine:
+            t = blk["term"]
+            if t["k"] != "call" or t.get("target") is None or blk["id"] in claimed or blk["id"] in plans:
+                continue
+            c = t["callee"]
+            if self._is_iter_method(c, self.ADAPTERS) and len(t["args"]) == 2:
+                cb = closure_body(t["args"][1])
+                if cb is not None and op_place(t["args"][0]) is not None:
+                    plans[blk["id"]] = {"kind": "opaque", "base": t["args"][0], "adapters": [],
+                                        "closure": (t["args"][1], cb, 2, self.ADAPTERS[c["name"]][0], "opaque")}
         return plans, claimed
 
     def lty(self, local):
@@ -586,6 +614,17 @@ class _Builder:
                 cur = nxt
             # the adapter call itself no longer does anything the analysis needs: keep it as a ghost so that its result type stays known
             ablk["term"] = dict(ablk["term"], ghost=True, absorbed=True)
+        if plan["kind"] == "opaque":
+            clo_op, cb, pi, how, res = plan["closure"]
+            after = mk()
+            entry, ret = self.run_closure(cb, clo_op, {pi: bind(how, xl)}, after["id"], t.get("unwind"), depth, stack, line, file, mk)
+            cur["term"] = goto(entry)
+            nd = self.new_local("bool")
+            after["term"] = {"k": "switch", "discr": use(nd, "nondet"), "targets": [[0, head["id"]]], "otherwise": done["id"], "line": line, "exp": False, "file": file}
+            done["term"] = t
+            done["orig"] = nb.get("orig")
+            nb["term"] = goto(head["id"])
+            return
         if plan["kind"] == "consumer":
             clo_op, cb, pi, how, res = plan["closure"]
             name = t["callee"]["name"]
